@@ -193,6 +193,17 @@ def read_cgsmiles(pattern):
                 ring_bond_order = symbol_to_order[token]
             else:
                 break
+        # a multi digit ring marker at the very end of the pattern
+        # (e.g. in a fragment definition) has to be registered as well
+        if multi_ring and ring_marker[1:].isdigit():
+            ring_marker = int(ring_marker[1:])
+            if ring_marker in cycle:
+                cycle_edges.append((current,
+                                    cycle[ring_marker][0],
+                                    cycle[ring_marker][1]))
+                del cycle[ring_marker]
+            else:
+                cycle[ring_marker] = [current, ring_bond_order]
 
         # check if there is a bond-order following the node
         if stop < len(pattern) and pattern[stop+rdx-1] in '- + . = # $':
